@@ -4,6 +4,7 @@ import Mathlib.Analysis.Calculus.Deriv.Mul
 import Mathlib.Analysis.Calculus.Deriv.Inv
 import Mathlib.Analysis.Calculus.Deriv.Pow
 import Mathlib.Analysis.SpecialFunctions.Trigonometric.InverseDeriv
+import Mathlib.Analysis.SpecialFunctions.Pow.Deriv
 /-! Helper lemmas for C01. -/
 open Cv Cv.Geom
 
@@ -771,5 +772,427 @@ theorem angle_grad2 (g1 g2 g3 : AGroup ℝ) (hM : msum g2 ≠ 0)
   refine h.congr_deriv ?_
   rw [angle_alg _ _ d _ _ ha hb hc1 hc2]
   simp only [V3.dot, V3.smul, V3.add, lit1]; ring
+
+
+/-! ## inertia, inertiaZ, coordNum, distanceInv -/
+
+/-! ### inertia, inertiaZ -/
+
+theorem lit2 : (2.0 : ℝ) = 2 := by norm_num
+
+theorem length_ne_zero_real (g : AGroup ℝ) (hg : g ≠ []) : (g.length : ℝ) ≠ 0 := by
+  have : g.length ≠ 0 := by simpa using hg
+  exact_mod_cast this
+
+theorem mv_ne_nil (g : AGroup ℝ) (hg : g ≠ []) (k : Nat) (v : V3 ℝ) : mv g k v ≠ [] := by
+  intro h
+  have := mv_length g k v
+  rw [h] at this
+  exact hg (List.length_eq_zero_iff.mp this.symm)
+
+theorem inertia_eq (g : AGroup ℝ) (hg : g ≠ []) :
+    inertia g = qsum g - V3.norm2 (rsum g) / (g.length : ℝ) := by
+  have hN := length_ne_zero_real g hg
+  unfold inertia centered
+  rw [foldl_centered, cog_eq, lit0]
+  simp only [V3.norm2, V3.dot, V3.smul]
+  field_simp
+  ring
+
+theorem inertia_grad_mv (g : AGroup ℝ) (hg : g ≠ []) (k : Nat) (hk : k < g.length) (d : V3 ℝ) :
+    HasDerivAt (fun t : ℝ => inertia (mv g k (V3.smul t d))) (V3.dot ((inertiaGrad g).getD k V3.zero) d) 0 := by
+  have hN := length_ne_zero_real g hg
+  have hfun : ∀ t : ℝ, inertia (mv g k (V3.smul t d))
+      = (qsum g - V3.norm2 (g[k]'hk).r + V3.norm2 (V3.add (g[k]'hk).r (V3.smul t d)))
+          - V3.norm2 (V3.add (rsum g) (V3.smul t d)) / (g.length : ℝ) := by
+    intro t
+    rw [inertia_eq _ (mv_ne_nil g hg k _), mv_length, qsum_mv g k hk, rsum_mv g k hk]
+  simp only [hfun]
+  have h1 := (hasDerivAt_norm2_line (g[k]'hk).r d).const_add (qsum g - V3.norm2 (g[k]'hk).r)
+  have h2 := (hasDerivAt_norm2_line (rsum g) d).div_const (g.length : ℝ)
+  have h := h1.fun_sub h2
+  refine h.congr_deriv ?_
+  have hgetD : (inertiaGrad g).getD k V3.zero = V3.smul 2 (V3.sub (g[k]'hk).r (cog g)) := by
+    unfold inertiaGrad centered
+    simp [List.getD_eq_getElem?_getD, hk, lit2]
+  rw [hgetD, cog_eq]
+  simp only [V3.dot, V3.sub, V3.smul]
+  field_simp
+  ring
+
+/-- sum of squared projections on `u` -/
+noncomputable def zsum (u : V3 ℝ) : AGroup ℝ → ℝ
+  | [] => 0
+  | a :: g => V3.dot a.r u * V3.dot a.r u + zsum u g
+
+theorem zsum_mv (u : V3 ℝ) (g : AGroup ℝ) (k : Nat) (hk : k < g.length) (v : V3 ℝ) :
+    zsum u (mv g k v) = zsum u g - V3.dot (g[k]'hk).r u * V3.dot (g[k]'hk).r u
+      + V3.dot (V3.add (g[k]'hk).r v) u * V3.dot (V3.add (g[k]'hk).r v) u := by
+  unfold mv
+  induction g generalizing k with
+  | nil => simp at hk
+  | cons a g ih =>
+    cases k with
+    | zero =>
+      simp only [List.modify_zero_cons, zsum, List.getElem_cons_zero]; ring
+    | succ k =>
+      have hk' : k < g.length := by simpa using hk
+      simp only [List.modify_succ_cons, zsum, ih k hk', List.getElem_cons_succ]; ring
+
+theorem foldl_centeredZ (g : AGroup ℝ) (c u : V3 ℝ) (acc : ℝ) :
+    (g.map fun a => V3.sub a.r c).foldl (fun s p => s + V3.dot p u * V3.dot p u) acc
+      = acc + zsum u g - 2 * V3.dot (rsum g) u * V3.dot c u + (g.length : ℝ) * (V3.dot c u * V3.dot c u) := by
+  induction g generalizing acc with
+  | nil => simp [zsum, rsum, V3.dot]
+  | cons a g ih =>
+    simp only [List.map_cons, List.foldl_cons, ih, zsum, rsum, List.length_cons]
+    push_cast
+    simp only [V3.dot, V3.sub, V3.add]
+    ring
+
+theorem inertiaZ_eq (g : AGroup ℝ) (axis : V3 ℝ) (hg : g ≠ []) :
+    inertiaZ g axis = zsum (V3.unit axis) g
+      - V3.dot (rsum g) (V3.unit axis) * V3.dot (rsum g) (V3.unit axis) / (g.length : ℝ) := by
+  have hN := length_ne_zero_real g hg
+  unfold inertiaZ centered
+  simp only []
+  rw [foldl_centeredZ, cog_eq, lit0]
+  simp only [V3.dot, V3.smul]
+  field_simp
+  ring
+
+theorem inertiaZ_grad_mv (g : AGroup ℝ) (axis : V3 ℝ) (hg : g ≠ []) (k : Nat) (hk : k < g.length) (d : V3 ℝ) :
+    HasDerivAt (fun t : ℝ => inertiaZ (mv g k (V3.smul t d)) axis)
+      (V3.dot ((inertiaZGrad g axis).getD k V3.zero) d) 0 := by
+  have hN := length_ne_zero_real g hg
+  have hfun : ∀ t : ℝ, inertiaZ (mv g k (V3.smul t d)) axis
+      = (zsum (V3.unit axis) g - V3.dot (g[k]'hk).r (V3.unit axis) * V3.dot (g[k]'hk).r (V3.unit axis)
+          + (V3.dot (g[k]'hk).r (V3.unit axis) + t * V3.dot d (V3.unit axis))
+            * (V3.dot (g[k]'hk).r (V3.unit axis) + t * V3.dot d (V3.unit axis)))
+        - (V3.dot (rsum g) (V3.unit axis) + t * V3.dot d (V3.unit axis))
+            * (V3.dot (rsum g) (V3.unit axis) + t * V3.dot d (V3.unit axis)) / (g.length : ℝ) := by
+    intro t
+    rw [inertiaZ_eq _ _ (mv_ne_nil g hg k _), mv_length, zsum_mv _ g k hk, rsum_mv g k hk]
+    simp only [V3.dot, V3.add, V3.smul]
+    ring
+  simp only [hfun]
+  have hgetD : (inertiaZGrad g axis).getD k V3.zero
+      = V3.smul (2 * V3.dot (V3.sub (g[k]'hk).r (cog g)) (V3.unit axis)) (V3.unit axis) := by
+    unfold inertiaZGrad centered
+    simp [List.getD_eq_getElem?_getD, hk, lit2]
+  rw [hgetD, cog_eq]
+  generalize V3.unit axis = u at *
+  have ha := hasDerivAt_affine (V3.dot (g[k]'hk).r u) (V3.dot d u) 0
+  have hb := hasDerivAt_affine (V3.dot (rsum g) u) (V3.dot d u) 0
+  have h1 := (ha.fun_mul ha).const_add (zsum u g - V3.dot (g[k]'hk).r u * V3.dot (g[k]'hk).r u)
+  have h2 := (hb.fun_mul hb).div_const (g.length : ℝ)
+  have h := h1.fun_sub h2
+  refine h.congr_deriv ?_
+  simp only [V3.dot, V3.sub, V3.smul]
+  field_simp
+  ring
+
+/-! ### switching function -/
+
+
+theorem swRaw_eq (p : SwParams ℝ) (x : ℝ) : swRaw p x = (1 - x ^ (p.en / 2)) / (1 - x ^ (p.ed / 2)) := by
+  simp only [swRaw, ipow_eq, lit1]
+
+theorem pow_ne_one_of {l : ℝ} (hl : 0 < l) (h1 : l ≠ 1) {m : Nat} (hm : m ≠ 0) : 1 - l ^ m ≠ 0 := by
+  intro h
+  have : l ^ m = 1 := by linarith
+  exact h1 ((pow_eq_one_iff_of_nonneg hl.le hm).mp this)
+
+/-- derivative of the unshifted quotient, exponents written `a + 1`, `b + 1` -/
+theorem hasDerivAt_swq (a b : Nat) (l : ℝ) (hl : 0 < l) (h1 : l ≠ 1) :
+    HasDerivAt (fun x : ℝ => (1 - x ^ (a + 1)) / (1 - x ^ (b + 1)))
+      ((1 - l ^ (a + 1)) / (1 - l ^ (b + 1)) *
+        (((b + 1 : Nat) : ℝ) * l ^ (b + 1) / ((1 - l ^ (b + 1)) * l)
+          - ((a + 1 : Nat) : ℝ) * l ^ (a + 1) / ((1 - l ^ (a + 1)) * l))) l := by
+  have hb : 1 - l ^ (b + 1) ≠ 0 := pow_ne_one_of hl h1 (Nat.succ_ne_zero b)
+  have ha : 1 - l ^ (a + 1) ≠ 0 := pow_ne_one_of hl h1 (Nat.succ_ne_zero a)
+  have hn := ((hasDerivAt_id l).fun_pow (a + 1)).const_sub 1
+  have hd := ((hasDerivAt_id l).fun_pow (b + 1)).const_sub 1
+  have h := hn.fun_div hd hb
+  simp only [id] at h
+  refine h.congr_deriv ?_
+  have hl' : l ≠ 0 := hl.ne'
+  simp only [Nat.add_sub_cancel, pow_succ] at *
+  push_cast
+  field_simp
+  ring
+
+theorem sw_deriv_aux (p : SwParams ℝ) (l : ℝ) (hl : 0 < l) (h1 : l ≠ 1) (hen : 2 ≤ p.en) (hed : 2 ≤ p.ed)
+    (hpos : 0 < (swRaw p l - p.tol) / (1 - p.tol)) :
+    HasDerivAt (swValue p) (swDeriv p l) l := by
+  obtain ⟨a, ha⟩ : ∃ a, p.en / 2 = a + 1 := ⟨p.en / 2 - 1, by omega⟩
+  obtain ⟨b, hb⟩ : ∃ b, p.ed / 2 = b + 1 := ⟨p.ed / 2 - 1, by omega⟩
+  have hq := hasDerivAt_swq a b l hl h1
+  have hf := (hq.sub_const p.tol).div_const (1 - p.tol)
+  have hraw : ∀ x, swRaw p x = (1 - x ^ (a + 1)) / (1 - x ^ (b + 1)) := by
+    intro x; rw [swRaw_eq, ha, hb]
+  have hpos' : 0 < ((1 - l ^ (a + 1)) / (1 - l ^ (b + 1)) - p.tol) / (1 - p.tol) := by
+    rw [← hraw]; exact hpos
+  have hev : ∀ᶠ x in nhds l, 0 < ((1 - x ^ (a + 1)) / (1 - x ^ (b + 1)) - p.tol) / (1 - p.tol) :=
+    hf.continuousAt.eventually (lt_mem_nhds hpos')
+  have heq : swValue p =ᶠ[nhds l] fun x => ((1 - x ^ (a + 1)) / (1 - x ^ (b + 1)) - p.tol) / (1 - p.tol) := by
+    filter_upwards [hev] with x hx
+    simp only [swValue, hraw, lit0, lit1]
+    rw [if_neg (not_lt.mpr hx.le)]
+  refine (hf.congr_of_eventuallyEq heq).congr_deriv ?_
+  simp only [swDeriv, hraw, lit0, lit1, ipow_eq, ha, hb]
+  rw [if_neg (not_lt.mpr hpos'.le)]
+  ring
+
+/-! ### one pair of coordNum -/
+
+theorem hasDerivAt_reducedDist2 (p : SwParams ℝ) (a b : Atom ℝ) (d : V3 ℝ) :
+    HasDerivAt (fun t : ℝ => reducedDist2 p a { b with r := V3.add b.r (V3.smul t d) })
+      (2 / (p.r0 * p.r0) * V3.dot (V3.sub b.r a.r) d) 0 := by
+  have hx := (hasDerivAt_affine (b.r.x - a.r.x) d.x 0).div_const p.r0
+  have hy := (hasDerivAt_affine (b.r.y - a.r.y) d.y 0).div_const p.r0
+  have hz := (hasDerivAt_affine (b.r.z - a.r.z) d.z 0).div_const p.r0
+  have h := ((hx.fun_mul hx).fun_add (hy.fun_mul hy)).fun_add (hz.fun_mul hz)
+  have hfun : ∀ t : ℝ, reducedDist2 p a { b with r := V3.add b.r (V3.smul t d) }
+      = (b.r.x - a.r.x + t * d.x) / p.r0 * ((b.r.x - a.r.x + t * d.x) / p.r0)
+        + (b.r.y - a.r.y + t * d.y) / p.r0 * ((b.r.y - a.r.y + t * d.y) / p.r0)
+        + (b.r.z - a.r.z + t * d.z) / p.r0 * ((b.r.z - a.r.z + t * d.z) / p.r0) := by
+    intro t
+    simp only [reducedDist2, V3.sub, V3.add, V3.smul]
+    ring
+  simp only [hfun]
+  refine h.congr_deriv ?_
+  simp only [V3.dot, V3.sub]
+  by_cases hr : p.r0 = 0
+  · simp [hr]
+  · field_simp
+    ring
+
+theorem atom_move_zero (b : Atom ℝ) (d : V3 ℝ) : ({ b with r := V3.add b.r (V3.smul 0 d) } : Atom ℝ) = b := by
+  cases b with
+  | mk m r => simp [add_smul_zero]
+
+theorem coordNum_pair_grad_aux (p : SwParams ℝ) (a b : Atom ℝ) (d : V3 ℝ)
+    (hl : 0 < reducedDist2 p a b) (h1 : reducedDist2 p a b ≠ 1) (hen : 2 ≤ p.en) (hed : 2 ≤ p.ed)
+    (hpos : 0 < (swRaw p (reducedDist2 p a b) - p.tol) / (1 - p.tol)) :
+    HasDerivAt (fun t : ℝ => swValue p (reducedDist2 p a { b with r := V3.add b.r (V3.smul t d) }))
+      (V3.dot (coordNumPair p a b) d) 0 := by
+  have hin := hasDerivAt_reducedDist2 p a b d
+  have hout : HasDerivAt (swValue p) (swDeriv p (reducedDist2 p a b))
+      ((fun t : ℝ => reducedDist2 p a { b with r := V3.add b.r (V3.smul t d) }) 0) := by
+    simp only [atom_move_zero]
+    exact sw_deriv_aux p _ hl h1 hen hed hpos
+  have h := hout.comp 0 hin
+  refine h.congr_deriv ?_
+  simp only [coordNumPair, V3.dot, V3.smul, V3.sub, lit2]
+  ring
+
+/-! ### sums over the pairs of two groups -/
+
+theorem foldl_add_sum {ι : Type} (l : List ι) (f : ι → ℝ) (acc : ℝ) :
+    l.foldl (fun s x => s + f x) acc = acc + (l.map f).sum := by
+  induction l generalizing acc with
+  | nil => simp
+  | cons x l ih => rw [List.foldl_cons, ih, List.map_cons, List.sum_cons]; ring
+
+theorem pairs_sum (g1 g2 : AGroup ℝ) (f : Atom ℝ × Atom ℝ → ℝ) :
+    ((pairs g1 g2).map f).sum = (g1.map fun a => (g2.map fun b => f (a, b)).sum).sum := by
+  unfold pairs
+  induction g1 with
+  | nil => simp
+  | cons a g1 ih =>
+    rw [List.flatMap_cons, List.map_append, List.sum_append, ih, List.map_cons, List.sum_cons, List.map_map]
+    rfl
+
+theorem foldl_pairs (g1 g2 : AGroup ℝ) (F : Atom ℝ → Atom ℝ → ℝ) :
+    (pairs g1 g2).foldl (fun s ab => s + F ab.1 ab.2) 0.0
+      = (g1.map fun a => (g2.map fun b => F a b).sum).sum := by
+  rw [foldl_add_sum (pairs g1 g2) (fun ab => F ab.1 ab.2), pairs_sum, lit0]; ring
+
+theorem sum_map_mv (h : Atom ℝ → ℝ) (g : AGroup ℝ) (k : Nat) (hk : k < g.length) (v : V3 ℝ) :
+    ((mv g k v).map h).sum
+      = (g.map h).sum - h (g[k]'hk) + h { (g[k]'hk) with r := V3.add (g[k]'hk).r v } := by
+  unfold mv
+  induction g generalizing k with
+  | nil => simp at hk
+  | cons a g ih =>
+    cases k with
+    | zero =>
+      simp only [List.modify_zero_cons, List.map_cons, List.sum_cons, List.getElem_cons_zero]; ring
+    | succ k =>
+      have hk' : k < g.length := by simpa using hk
+      simp only [List.modify_succ_cons, List.map_cons, List.sum_cons, ih k hk', List.getElem_cons_succ]; ring
+
+theorem mv_zero (g : AGroup ℝ) (k : Nat) (d : V3 ℝ) : mv g k (V3.smul 0 d) = g := by
+  unfold mv
+  conv_rhs => rw [← List.modify_id (l := g) (i := k)]
+  congr 1
+  funext a
+  cases a with
+  | mk m r => simp [add_smul_zero]
+
+/-- a sum over the pairs when one atom of group 2 moves: only the pairs of that atom change -/
+theorem hasDerivAt_pairs_sum (g1 g2 : AGroup ℝ) (F : Atom ℝ → Atom ℝ → ℝ) (k : Nat) (hk : k < g2.length)
+    (d : V3 ℝ) (F' : Atom ℝ → ℝ)
+    (h : ∀ a ∈ g1, HasDerivAt
+      (fun t : ℝ => F a { (g2[k]'hk) with r := V3.add (g2[k]'hk).r (V3.smul t d) }) (F' a) 0) :
+    HasDerivAt (fun t : ℝ => (pairs g1 (mv g2 k (V3.smul t d))).foldl (fun s ab => s + F ab.1 ab.2) 0.0)
+      ((g1.map F').sum) 0 := by
+  have hfun : ∀ t : ℝ, (pairs g1 (mv g2 k (V3.smul t d))).foldl (fun s ab => s + F ab.1 ab.2) 0.0
+      = (g1.map fun a => ((g2.map fun b => F a b).sum - F a (g2[k]'hk))
+          + F a { (g2[k]'hk) with r := V3.add (g2[k]'hk).r (V3.smul t d) }).sum := by
+    intro t
+    rw [foldl_pairs]
+    congr 1
+    apply List.map_congr_left
+    intro a _
+    exact sum_map_mv (fun b => F a b) g2 k hk _
+  simp only [hfun]
+  exact hasDerivAt_list_sum g1
+    (fun a t => ((g2.map fun b => F a b).sum - F a (g2[k]'hk))
+          + F a { (g2[k]'hk) with r := V3.add (g2[k]'hk).r (V3.smul t d) }) F' 0
+    (fun a ha => (h a ha).const_add _)
+
+theorem dot_foldl_add (g : AGroup ℝ) (F : Atom ℝ → V3 ℝ) (acc d : V3 ℝ) :
+    V3.dot (g.foldl (fun acc a => V3.add acc (F a)) acc) d
+      = V3.dot acc d + (g.map fun a => V3.dot (F a) d).sum := by
+  induction g generalizing acc with
+  | nil => simp
+  | cons a g ih =>
+    rw [List.foldl_cons, ih, List.map_cons, List.sum_cons]
+    simp only [V3.dot, V3.add]; ring
+
+theorem dot_zero (d : V3 ℝ) : V3.dot V3.zero d = 0 := by
+  simp [V3.dot, V3.zero, lit0]
+
+theorem coordNum_grad2 (g1 g2 : AGroup ℝ) (p : SwParams ℝ) (hen : 2 ≤ p.en) (hed : 2 ≤ p.ed)
+    (k : Nat) (hk : k < g2.length) (d : V3 ℝ)
+    (hsmooth : ∀ a ∈ g1, 0 < reducedDist2 p a (g2.getD k ⟨0, V3.zero⟩) ∧ reducedDist2 p a (g2.getD k ⟨0, V3.zero⟩) ≠ 1 ∧
+      0 < (swRaw p (reducedDist2 p a (g2.getD k ⟨0, V3.zero⟩)) - p.tol) / (1 - p.tol)) :
+    HasDerivAt (fun t : ℝ => coordNum g1 (mv g2 k (V3.smul t d)) p)
+      (V3.dot ((coordNumGrad g1 g2 p).2.getD k V3.zero) d) 0 := by
+  have hget : g2.getD k ⟨0, V3.zero⟩ = g2[k]'hk := by simp [List.getD_eq_getElem?_getD, hk]
+  rw [hget] at hsmooth
+  have h := hasDerivAt_pairs_sum g1 g2 (fun a b => swValue p (reducedDist2 p a b)) k hk d
+    (fun a => V3.dot (coordNumPair p a (g2[k]'hk)) d)
+    (fun a ha => coordNum_pair_grad_aux p a (g2[k]'hk) d (hsmooth a ha).1 (hsmooth a ha).2.1 hen hed (hsmooth a ha).2.2)
+  refine h.congr_deriv ?_
+  have hgetD : (coordNumGrad g1 g2 p).2.getD k V3.zero
+      = g1.foldl (fun acc a => V3.add acc (coordNumPair p a (g2[k]'hk))) V3.zero := by
+    unfold coordNumGrad
+    simp [List.getD_eq_getElem?_getD, hk]
+  rw [hgetD, dot_foldl_add, dot_zero]; ring
+
+/-! ### distanceInv -/
+
+theorem hasDerivAt_invPow_pair (m : Nat) (a b : Atom ℝ) (d : V3 ℝ) (hne : V3.norm2 (V3.sub b.r a.r) ≠ 0) :
+    HasDerivAt (fun t : ℝ => invPow (V3.norm2 (V3.sub ({ b with r := V3.add b.r (V3.smul t d) } : Atom ℝ).r a.r)) m)
+      (-(m : ℝ) * invPow (V3.norm2 (V3.sub b.r a.r)) m / V3.norm2 (V3.sub b.r a.r) * 2
+        * V3.dot (V3.sub b.r a.r) d) 0 := by
+  have hfun : ∀ t : ℝ, invPow (V3.norm2 (V3.sub ({ b with r := V3.add b.r (V3.smul t d) } : Atom ℝ).r a.r)) m
+      = (V3.norm2 (V3.add (V3.sub b.r a.r) (V3.smul t d)) ^ m)⁻¹ := by
+    intro t
+    have : V3.sub (V3.add b.r (V3.smul t d)) a.r = V3.add (V3.sub b.r a.r) (V3.smul t d) := by
+      apply v3_ext <;> simp only [V3.add, V3.sub, V3.smul] <;> ring
+    simp only [invPow, ipow_eq, lit1, this, one_div]
+  simp only [hfun]
+  have hp := (hasDerivAt_norm2_line (V3.sub b.r a.r) d).fun_pow m
+  have h := hp.fun_inv (by simpa [add_smul_zero] using pow_ne_zero m hne)
+  simp only [add_smul_zero] at h
+  refine h.congr_deriv ?_
+  simp only [invPow, ipow_eq, lit1]
+  generalize V3.norm2 (V3.sub b.r a.r) = D at *
+  generalize V3.dot (V3.sub b.r a.r) d = E
+  cases m with
+  | zero => simp
+  | succ m =>
+    simp only [Nat.add_sub_cancel, pow_succ]
+    push_cast
+    field_simp
+
+/-- the sum of the inverse powers over the pairs -/
+noncomputable def invSum (g1 g2 : AGroup ℝ) (m : Nat) : ℝ :=
+  (pairs g1 g2).foldl (fun acc ab => acc + invPow (V3.norm2 (V3.sub ab.2.r ab.1.r)) m) 0.0
+
+theorem invSum_pos (g1 g2 : AGroup ℝ) (m : Nat) (h1 : g1 ≠ []) (h2 : g2 ≠ [])
+    (hne : ∀ a ∈ g1, ∀ b ∈ g2, V3.norm2 (V3.sub b.r a.r) ≠ 0) : 0 < invSum g1 g2 m := by
+  unfold invSum
+  rw [foldl_pairs g1 g2 (fun a b => invPow (V3.norm2 (V3.sub b.r a.r)) m)]
+  apply List.sum_pos
+  · intro x hx
+    obtain ⟨a, ha, rfl⟩ := List.mem_map.mp hx
+    apply List.sum_pos
+    · intro y hy
+      obtain ⟨b, hb, rfl⟩ := List.mem_map.mp hy
+      have hD : 0 < V3.norm2 (V3.sub b.r a.r) := lt_of_le_of_ne (norm2_nonneg _) (Ne.symm (hne a ha b hb))
+      simp only [invPow, ipow_eq, lit1]
+      positivity
+    · simpa using h2
+  · simpa using h1
+
+theorem distanceInv_eq (g1 g2 : AGroup ℝ) (n : Nat) :
+    distanceInv g1 g2 n = (invSum g1 g2 (n / 2) * (1 / ((g1.length * g2.length : Nat) : ℝ))) ^ (-1 / (n : ℝ)) := by
+  simp only [distanceInv, invSum, prim_pow, lit1]
+
+theorem distanceInv_grad2 (g1 g2 : AGroup ℝ) (n : Nat) (hn : 2 ≤ n) (h1 : g1 ≠ [])
+    (hne : ∀ a ∈ g1, ∀ b ∈ g2, V3.norm2 (V3.sub b.r a.r) ≠ 0) (k : Nat) (hk : k < g2.length) (d : V3 ℝ) :
+    HasDerivAt (fun t : ℝ => distanceInv g1 (mv g2 k (V3.smul t d)) n)
+      (V3.dot ((distanceInvGrad g1 g2 n).2.getD k V3.zero) d) 0 := by
+  have h2 : g2 ≠ [] := by
+    intro h; rw [h] at hk; simp at hk
+  have hN1 := length_ne_zero_real g1 h1
+  have hN2 := length_ne_zero_real g2 h2
+  have hnR : (n : ℝ) ≠ 0 := by
+    have : n ≠ 0 := by omega
+    exact_mod_cast this
+  have hmem : g2[k]'hk ∈ g2 := List.getElem_mem hk
+  have hS := hasDerivAt_pairs_sum g1 g2 (fun a b => invPow (V3.norm2 (V3.sub b.r a.r)) (n / 2)) k hk d
+    (fun a => -((n / 2 : Nat) : ℝ) * invPow (V3.norm2 (V3.sub (g2[k]'hk).r a.r)) (n / 2)
+        / V3.norm2 (V3.sub (g2[k]'hk).r a.r) * 2 * V3.dot (V3.sub (g2[k]'hk).r a.r) d)
+    (fun a ha => hasDerivAt_invPow_pair (n / 2) a (g2[k]'hk) d (hne a ha _ hmem))
+  have hS' : HasDerivAt (fun t : ℝ => invSum g1 (mv g2 k (V3.smul t d)) (n / 2)) _ 0 := hS
+  have hpos := invSum_pos g1 g2 (n / 2) h1 h2 hne
+  have hc : 0 < 1 / ((g1.length * g2.length : Nat) : ℝ) := by
+    have : 0 < g1.length * g2.length := Nat.mul_pos (by
+      rcases Nat.eq_zero_or_pos g1.length with h | h
+      · exact absurd (List.length_eq_zero_iff.mp h) h1
+      · exact h) (by omega)
+    have : (0 : ℝ) < ((g1.length * g2.length : Nat) : ℝ) := by exact_mod_cast this
+    positivity
+  have hY : 0 < invSum g1 g2 (n / 2) * (1 / ((g1.length * g2.length : Nat) : ℝ)) := mul_pos hpos hc
+  have hY0 : invSum g1 (mv g2 k (V3.smul 0 d)) (n / 2) * (1 / ((g1.length * g2.length : Nat) : ℝ)) ≠ 0 := by
+    rw [mv_zero]; exact hY.ne'
+  have h := (hS'.mul_const (1 / ((g1.length * g2.length : Nat) : ℝ))).rpow_const (p := -1 / (n : ℝ)) (Or.inl hY0)
+  rw [mv_zero] at h
+  have hfun : ∀ t : ℝ, distanceInv g1 (mv g2 k (V3.smul t d)) n
+      = (invSum g1 (mv g2 k (V3.smul t d)) (n / 2) * (1 / ((g1.length * g2.length : Nat) : ℝ))) ^ (-1 / (n : ℝ)) := by
+    intro t; rw [distanceInv_eq, mv_length]
+  simp only [hfun]
+  refine h.congr_deriv ?_
+  have hgetD : (distanceInvGrad g1 g2 n).2.getD k V3.zero
+      = V3.smul ((-1 / (n : ℝ)) * (distanceInv g1 g2 n) ^ (n + 1) / ((g1.length * g2.length : Nat) : ℝ))
+          (g1.foldl (fun acc a => V3.add acc (distanceInvPair n a (g2[k]'hk))) V3.zero) := by
+    unfold distanceInvGrad
+    simp [List.getD_eq_getElem?_getD, hk, ipow_eq, lit1]
+  have hx : (distanceInv g1 g2 n) ^ (n + 1)
+      = (invSum g1 g2 (n / 2) * (1 / ((g1.length * g2.length : Nat) : ℝ))) ^ (-1 / (n : ℝ) - 1) := by
+    rw [distanceInv_eq, ← Real.rpow_natCast, ← Real.rpow_mul hY.le]
+    congr 1
+    push_cast
+    field_simp
+    ring
+  have hdot : ∀ v w : V3 ℝ, ∀ c : ℝ, V3.dot (V3.smul c v) w = c * V3.dot v w := by
+    intro v w c; simp only [V3.dot, V3.smul]; ring
+  rw [hgetD, hx, hdot, dot_foldl_add, dot_zero]
+  generalize (invSum g1 g2 (n / 2) * (1 / ((g1.length * g2.length : Nat) : ℝ))) ^ (-1 / (n : ℝ) - 1) = P
+  have hterm : (g1.map fun a => V3.dot (distanceInvPair n a (g2[k]'hk)) d)
+      = g1.map fun a => -((n / 2 : Nat) : ℝ) * invPow (V3.norm2 (V3.sub (g2[k]'hk).r a.r)) (n / 2)
+        / V3.norm2 (V3.sub (g2[k]'hk).r a.r) * 2 * V3.dot (V3.sub (g2[k]'hk).r a.r) d := by
+    apply List.map_congr_left
+    intro a _
+    simp only [distanceInvPair, hdot, lit1, lit2]
+    ring
+  rw [hterm]
+  ring
 
 end Cv.C01
